@@ -43,7 +43,8 @@ class Rng:
 # ------------------------------------------------------------------ output protocol
 stats, nsamples = {}, [0]
 def Case(inp, real): print("C\t%s\t%s" % (inp, real))
-def OracleFail(what, detail): detail = dict(detail, what=what); print("O\t" + json.dumps(detail))
+RERUN = {}      # set by gen.py: {"suite", "seed", "n"} — every failure carries how to regenerate its case
+def OracleFail(what, detail): detail = dict(detail, what=what, rerun=RERUN); print("O\t" + json.dumps(detail))
 def Known(i, what): print("K\t%s\t%s" % (i, what))
 def Stat(k, n=1): stats[k] = stats.get(k, 0) + n
 def Sample(v):
